@@ -165,7 +165,8 @@ class ImplRunner:
         tag = op[0]
         try:
             if tag == 0:
-                obs, info = env.reset()
+                # Gymnasium's keyword arguments are accepted and change nothing that the properties speak about
+                obs, info = env.reset(seed=op[1], options={"verif": 1}) if len(op) > 1 else env.reset()
                 self.pool.append(env.current_state)
                 return [0, mat_wire(obs), state_wire(env.current_state.tensor, self.lay)]
             if tag == 1:
